@@ -3,6 +3,7 @@ package main
 // Symbolic state, merging, frames, outcomes, obligations.
 
 import (
+	"strings"
 	"go/ast"
 	"go/token"
 	"go/types"
@@ -122,6 +123,8 @@ func (x *Xlat) merge(a, b *State) *State {
 		if !ok {
 			if isRegionKey(k) {
 				vb = x.initial(k, va.Sort)
+			} else if strings.HasPrefix(k, "defer$") || strings.HasPrefix(k, "GW$") {
+				vb = TFalse
 			} else {
 				continue
 			}
@@ -134,6 +137,10 @@ func (x *Xlat) merge(a, b *State) *State {
 	}
 	for k, vb := range b.env {
 		if _, ok := a.env[k]; ok {
+			continue
+		}
+		if strings.HasPrefix(k, "defer$") || strings.HasPrefix(k, "GW$") {
+			out.env[k] = x.ctx.Define("m$"+k, Ite(cond, TFalse, vb))
 			continue
 		}
 		if isRegionKey(k) {
